@@ -321,6 +321,33 @@ func (w *world) cycleOp() {
 }
 
 // a batch of 2-4 bind contexts (BATCH_BIND_NUM > 1) with independent API outcomes in any positions
+// awaitsResync: the pod's key already waits in the resync queue (a batch context for it would
+// make law 105 hold for the old entry, not for the batch)
+func (w *world) awaitsResync(id int64) bool {
+	for _, x := range w.resync {
+		if x == id {
+			return true
+		}
+	}
+	return false
+}
+
+// batchFailures counts the contexts of the batches of a case whose API side is scripted to fail:
+// with none, law 105 is evaluated on an empty key list
+func batchFailures(ops []opT) int {
+	n := 0
+	for _, o := range ops {
+		if o.Code == 19 {
+			for _, x := range o.Batch {
+				if x.F != 1 {
+					n++
+				}
+			}
+		}
+	}
+	return n
+}
+
 func (w *world) batchOp() {
 	r := w.r
 	m := r.Range(2, 4)
@@ -329,7 +356,7 @@ func (w *world) batchOp() {
 	for k := 0; k < m; k++ {
 		id := int64(r.Range(1, int(w.nPods)))
 		for try := 0; try < 6; try++ {
-			if p, ok := w.pods[id]; ok && !used[id] && p.Node == 0 && p.Phase == 1 && !p.Deleting && p.Job != 0 {
+			if p, ok := w.pods[id]; ok && !used[id] && !w.awaitsResync(id) && p.Node == 0 && p.Phase == 1 && !p.Deleting && p.Job != 0 {
 				break
 			}
 			id = int64(r.Range(1, int(w.nPods)))
@@ -527,7 +554,7 @@ func gen(rng *vh.Rng, n int, emit func(id string, sel int, in []int64, kind stri
 			}
 		}
 		bb = append(bb, opT{Code: 10}, opT{Code: 9})
-		emit(name, 1, encCase(bb), "fixed", true, describe(bb))
+		emit(name, 1, encCase(bb), "fixed", nontrivial(bb) && batchFailures(bb) > 0, describe(bb))
 	}
 	// a failed bind, then the API server unreachable for k resync attempts, then recovery
 	for _, k := range []int64{1, 10, 11, 30} {
